@@ -139,6 +139,10 @@ func AttrVariants(p string) []Node {
 	out = append(out, Node{Path: p, Kind: Symlink, Perm: 0777, Mtime: mt[0], Link: "target"})
 	out = append(out, Node{Path: p, Kind: Symlink, Perm: 0777, Mtime: mt[0], Link: "/abs/target"})
 	out = append(out, Node{Path: p, Kind: Symlink, Perm: 0777, Mtime: mt[1], Link: "../../up", UID: 1000, GID: 1000})
+	// attributes in the trusted namespace are legal on links and special files too
+	out = append(out, Node{Path: p, Kind: Symlink, Perm: 0777, Mtime: mt[0], Link: "target", Xattrs: map[string]string{"trusted.l": "1"}})
+	out = append(out, Node{Path: p, Kind: Fifo, Perm: 0644, Mtime: mt[0], Xattrs: map[string]string{"trusted.f": "2"}})
+	out = append(out, Node{Path: p, Kind: Char, Perm: 0666, Mtime: mt[0], Major: 1, Minor: 3, Xattrs: map[string]string{"trusted.c": "3"}})
 	out = append(out, Node{Path: p, Kind: Fifo, Perm: 0644, Mtime: mt[0]})
 	out = append(out, Node{Path: p, Kind: Fifo, Perm: 0600, Mtime: mt[1], UID: 1000})
 	out = append(out, Node{Path: p, Kind: Char, Perm: 0666, Mtime: mt[0], Major: 1, Minor: 3})
